@@ -253,6 +253,12 @@ class MultiTierCache(Entity):
         # Remove from backing store
         store_existed = yield from self._backing_store.delete(key)
 
+        # Invalidate again now that the delete has landed: a read that missed
+        # while the delete was in flight may have re-cached the old value.
+        for tier in self._tiers:
+            if hasattr(tier, "invalidate"):
+                tier.invalidate(key)
+
         # Clean up access tracking
         self._access_counts.pop(key, None)
 
